@@ -72,7 +72,13 @@ PassOp(k, h, t) == MkOp("pass", k, "", "", "", "", "", h, t, <<>>, "", "", "")
 EdgeOp(a, b, x) == MkOp("edge", "", a, b, "", "", "", "", "", <<>>, "", "", x)
 BranchOp(a, t, E, c) == MkOp("branch", "", a, "", "", "", "", "", t, E, c, "", "")
 CompileOp(m, x) == MkOp("compile", "", "", "", "", "", "", "", "", <<>>, "", m, x)
-IsAdd(o) == o.op \in {"node", "pass", "edge", "branch", "static"}
+\* sub: a nested graph i -> o added as a node (AddGraphNode); x says which keys it was given: "ik" WithInputKey, "ok" WithOutputKey, "iok" both.
+\* With an input (output) key the NODE's declared input (output) type is map[string]any, whatever the inner graph declares.
+SubOp(k, i, o, e, x) == MkOp("sub", k, "", "", i, o, e, "", "", <<>>, "", "", x)
+EffIn(o) == IF o.op = "sub" /\ o.x \in {"ik", "iok"} THEN "msa" ELSE o.i
+EffOut(o) == IF o.op = "sub" /\ o.x \in {"ok", "iok"} THEN "msa" ELSE o.o
+\* branch: x = "" a branch object of its own, otherwise the name of a *GraphBranch object that several AddBranch calls share
+IsAdd(o) == o.op \in {"node", "sub", "pass", "edge", "branch", "static"}
 \* workflow front end: x of an edge says how the input was declared -- "fm"/"fm2" AddInput with a field mapping (to key k / k2),
 \* "dfm"/"dfm2" the same WithNoDirectDependency (data only), "c" AddDependency (control only); op "static" = SetStaticValue(k, path x, value e)
 IsFM(x) == x \in {"fm", "fm2", "dfm", "dfm2"}
@@ -80,10 +86,10 @@ HasCtrl(o) == o.x \notin {"dfm", "dfm2"}
 HasData(o) == o.x # "c"
 
 (* The graph declared by the calls with index in I *)
-DeclIdx(ops, I) == {j \in I : ops[j].op \in {"node", "pass"}}
+DeclIdx(ops, I) == {j \in I : ops[j].op \in {"node", "sub", "pass"}}
 Keys(ops, I) == {ops[j].k : j \in DeclIdx(ops, I)}
 RecOf(ops, I, k) == ops[CHOOSE j \in DeclIdx(ops, I) : ops[j].k = k /\ \A j2 \in DeclIdx(ops, I) : ops[j2].k = k => j <= j2]
-TypedKeys(ops, I) == {k \in Keys(ops, I) : RecOf(ops, I, k).op = "node"}
+TypedKeys(ops, I) == {k \in Keys(ops, I) : RecOf(ops, I, k).op \in {"node", "sub"}}
 PassKeys(ops, I) == {k \in Keys(ops, I) : RecOf(ops, I, k).op = "pass"}
 EdgeIdx(ops, I) == {j \in I : ops[j].op = "edge"}
 BrIdx(ops, I) == {j \in I : ops[j].op = "branch"}
@@ -95,8 +101,8 @@ DataConn(ops, I) == PlainEdgeSet(ops, I) \cup UNION {{<<ops[j].a, e>> : e \in Ra
 ConnSet(ops, I) == EdgeSet(ops, I) \cup UNION {{<<ops[j].a, e>> : e \in Range(ops[j].ends)} : j \in BrIdx(ops, I)}
 \* pairs along which data DOES flow given the fixed decisions of the harness conditions
 FlowSet(ops, I) == PlainEdgeSet(ops, I) \cup {<<ops[j].a, ops[j].c>> : j \in BrIdx(ops, I)}
-OutT(hdr, ops, I, k) == IF k = START THEN hdr.gi ELSE IF k \in TypedKeys(ops, I) THEN RecOf(ops, I, k).o ELSE "nil"
-InT(hdr, ops, I, k) == IF k = END THEN hdr.go ELSE IF k \in TypedKeys(ops, I) THEN RecOf(ops, I, k).i ELSE "nil"
+OutT(hdr, ops, I, k) == IF k = START THEN hdr.gi ELSE IF k \in TypedKeys(ops, I) THEN EffOut(RecOf(ops, I, k)) ELSE "nil"
+InT(hdr, ops, I, k) == IF k = END THEN hdr.go ELSE IF k \in TypedKeys(ops, I) THEN EffIn(RecOf(ops, I, k)) ELSE "nil"
 
 --------------------------------------------------------------------------------
 (* C20: the statement's list of ill-formed constructions, as reference predicates *)
@@ -120,7 +126,7 @@ Cyclic(ops, I) == LET C == {c \in ConnSet(ops, I) : c[1] # START /\ c[2] # END} 
 \* why call j is ill-formed given the calls before it ("" = it is not)
 AddBad(hdr, ops, j) ==
   LET o == ops[j]  Pr == 1..(j - 1)  K == Keys(ops, Pr) IN
-  CASE o.op \in {"node", "pass"} ->
+  CASE o.op \in {"node", "sub", "pass"} ->
          IF o.k \in {START, END} THEN "reserved-key"
          ELSE IF o.k \in K THEN "duplicate-key"
          ELSE IF o.h # "" /\ ~hdr.state THEN "state-handler-without-state"
@@ -204,22 +210,25 @@ MaybeChecked(hdr, ops, I, n) ==
      \cup {InT(hdr, ops, I, c[2]) : c \in {y \in C : y[1] \in X /\ y[2] \notin P}}
      \cup {ops[j].t : j \in {y \in BrIdx(ops, I) : ops[y].a \in X}}
 \* emissions of a run: <<node, dynamic type>>
-Emissions(e) == {<<START, e.d>>} \cup {<<x.n, x.out>> : x \in Range(e.ex)}
+\* (the body of a nested graph logs what the INNER graph got and gave; with an output key the node hands on a map)
+Emissions(hdr, ops, I, e) == {<<START, e.d>>} \cup {<<x.n, IF OutT(hdr, ops, I, x.n) # RecOf(ops, I, x.n).o THEN "msa" ELSE x.out>> : x \in Range(e.ex)}
 \* declared types the value is handed to in the very step it is emitted (a pass-through node takes a step of its own, and the run
 \* may end before the value gets further)
 DeliveredAtOnce(hdr, ops, I, n) ==
   LET F == FlowSet(ops, I) IN
   {InT(hdr, ops, I, c[2]) : c \in {y \in F : y[1] = n /\ (y[2] = END \/ y[2] \in TypedKeys(ops, I))}}
   \cup {ops[j].t : j \in {y \in BrIdx(ops, I) : ops[y].a = n}}
-Undeliverable(hdr, ops, I, e) == \E m \in Emissions(e) : \E t \in DeliveredAtOnce(hdr, ops, I, m[1]) : SurelyNotAssignable(m[2], t)
-CheckJustified(hdr, ops, I, e) == \E m \in Emissions(e) : \E t \in MaybeChecked(hdr, ops, I, m[1]) \ {"nil"} : MayBeRefused(m[2], t)
+Undeliverable(hdr, ops, I, e) == \E m \in Emissions(hdr, ops, I, e) : \E t \in DeliveredAtOnce(hdr, ops, I, m[1]) : SurelyNotAssignable(m[2], t)
+CheckJustified(hdr, ops, I, e) == \E m \in Emissions(hdr, ops, I, e) : \E t \in MaybeChecked(hdr, ops, I, m[1]) \ {"nil"} : MayBeRefused(m[2], t)
 \* a nil handed over a connection that needs NO run-time check (any -> any, iface -> any ...) is outside the statement: the receiving
 \* wrapper's own type assertion fails on it in the unchanged library; a panic of such a run is not judged
 \* (likewise in Stream mode: the library's invoke-to-stream adapter panics on a nil result before the value reaches any connection)
 NilOverUncheckedConnection(hdr, ops, I, e) ==
-  \E m \in Emissions(e) : m[2] = "nil" /\ (\/ e.mode = "stream"
-                                           \/ Carriers(ops, I, m[1]) # {m[1]}       \* it enters a pass-through node, which may have taken the producer's interface type
-                                           \/ \E t \in Delivered(hdr, ops, I, m[1]) : Assign(OutT(hdr, ops, I, m[1]), t) = "must")
+  \E m \in Emissions(hdr, ops, I, e) : m[2] = "nil" /\
+     (\/ e.mode = "stream"
+      \* ... or is merged with another value at a fan-in (the merge reflects on the nil)
+      \/ \E y \in {c[2] : c \in {z \in FlowSet(ops, I) : z[1] \in Carriers(ops, I, m[1])}} :
+            Cardinality({c \in FlowSet(ops, I) : c[2] = y}) > 1)
 
 --------------------------------------------------------------------------------
 (* Outcome of a call: "ok" | "E" an error | "S" the very error value of the first failed Add* | "C" ErrGraphCompiled |    *)
@@ -289,7 +298,7 @@ RunView(e) == [ex |-> e.ex, br |-> e.br, res |-> e.res, rd |-> e.rd]
 RunWhy(S, e) ==
   LET ops == S.hdr.ops  I == S.acc IN
   IF ~DynOK(e.d, S.hdr.gi) THEN "run-input-not-of-graph-input-type"
-  ELSE IF \E x \in Range(e.ex) : x.n \notin TypedKeys(ops, I) \/ ~DynOK(x.got, InT(S.hdr, ops, I, x.n)) \/ ~DynOK(x.out, OutT(S.hdr, ops, I, x.n))
+  ELSE IF \E x \in Range(e.ex) : x.n \notin TypedKeys(ops, I) \/ ~DynOK(x.got, RecOf(ops, I, x.n).i) \/ ~DynOK(x.out, RecOf(ops, I, x.n).o)
        THEN "wrong-type-delivered-to-node"
   ELSE IF \E x \in Range(e.br) : x.j \notin BrIdx(ops, I) \/ ~DynOK(x.got, ops[x.j].t) THEN "wrong-type-delivered-to-branch"
   ELSE IF e.res \notin {"result", "typecheck", "error", "panic", "panicerr"} THEN "unknown-run-outcome"
